@@ -514,7 +514,7 @@ def verify_function(contract: Contract, registry: dict, known_ids=frozenset(), r
                                     break
                         if hit:
                             r.status, r.finding = "known-finding", hit
-                        elif any(("@" in nm or "[]" in nm) for nm in ex.inputs) and contract.replay is None and contract.build_args is None:
+                        elif (contract.no_replay or any(("@" in nm or "[]" in nm) for nm in ex.inputs)) and contract.replay is None and contract.build_args is None:
                             # ghost-based contract (denotations, IR links): no concrete input exists to replay;
                             # the obligation held on the committed tree and fails now
                             r.status = "violated-noinput"
